@@ -149,6 +149,27 @@ def apply_cif_quirks(text, spec):
                   "space_group_symop_operation_xyz", "space_group_symop_id"):
             data.pop(k, None)
         data = dict([("space_group_IT_number", int(spec["sg"][0]))] + list(data.items()))
+    if "descriptive" in quirks:
+        # optional items that describe the structure as deposited files do
+        # (names of the setting, derived cell quantities); the reader ignores
+        # them but a crystal born from the file carries them along
+        from chmpy.crystal import SpaceGroup, UnitCell
+
+        try:
+            symbol = SpaceGroup(int(spec["sg"][0]), spec["sg"][1]).symbol
+        except Exception:  # noqa: BLE001
+            symbol = "Unknown"
+        setting = (" :" + spec["sg"][1]) if spec["sg"][1] in ("H", "R") else ""
+        a, b, c, al, be, ga = [float(v) for v in spec["cell"]]
+        volume = UnitCell.from_lengths_and_angles([a, b, c], np.radians([al, be, ga])).volume()
+        extra = [
+            ("symmetry_cell_setting", "trigonal" if int(spec["sg"][0]) in RGROUPS else "unknown"),
+            ("symmetry_space_group_name_H-M", symbol + setting),
+            ("symmetry_space_group_name_Hall", "Hall " + symbol + setting),
+            ("cell_volume", round(float(volume), 3)),
+            ("cell_formula_units_Z", len(spec["frac"]) % 5 + 1),
+        ]
+        data = dict([kv for kv in extra if kv[0] not in data] + list(data.items()))
     out = Cif({name: data}).to_string()
     if "esd" in quirks:
         out = re.sub(r"^(_cell_length_[abc] \S+)$", r"\1(3)", out, flags=re.M)
@@ -278,6 +299,8 @@ def gen_spec(rng, kind=None):
     quirks = None
     if via == "cif" and rng.random() < 0.3:
         quirks = rng.sample(CIF_QUIRKS, rng.randint(1, 2))
+    if via == "cif" and rng.random() < 0.4:
+        quirks = (quirks or []) + ["descriptive"]
     return {
         "quirks": quirks,
         "labels": labels,
